@@ -209,7 +209,11 @@ func (d *CDisk) Counters() (w, b, r uint64) {
 // global progress counter sampled by the watchdog
 var progressCtr uint64
 
-func progressTick() { atomic.AddUint64(&progressCtr, 1) }
+func progressTick() {
+	if !raceMode {
+		atomic.AddUint64(&progressCtr, 1)
+	}
+}
 
 // ---------------------------------------------------------------------------
 // Crash images from a trace
